@@ -378,10 +378,12 @@ func runWallet(r *evid.Run, dir string, cs int64) {
 	// a non-issuing writer of the SAME account rows runs alongside: account
 	// renames rewrite the whole row, counters included, without taking part in
 	// the issuance protocol
-	wg.Add(1)
+	var issuersDone int32
+	var rwg sync.WaitGroup
+	rwg.Add(1)
 	go func() {
-		defer wg.Done()
-		for i := 0; i < 2*K; i++ {
+		defer rwg.Done()
+		for i := 0; i < 20000 && atomic.LoadInt32(&issuersDone) == 0; i++ {
 			sc, acct := waddrmgr.KeyScopeBIP0084, uint32(0)
 			if haveImp && i%2 == 1 {
 				sc, acct = impScope, impAcct
@@ -389,10 +391,11 @@ func runWallet(r *evid.Run, dir string, cs int64) {
 			if err := f.W.RenameAccount(sc, acct, fmt.Sprintf("renamed-%d-%d", cs&0xffff, i)); err == nil {
 				atomic.AddInt64(&renames, 1)
 			}
-			time.Sleep(time.Duration(50+i*13%200) * time.Microsecond)
 		}
 	}()
 	wg.Wait()
+	atomic.StoreInt32(&issuersDone, 1)
+	rwg.Wait()
 	f.DB.PreCommit = nil
 	r.Hit("concurrent-account-renames", int(atomic.LoadInt64(&renames)))
 	fail := func(key, what string) {
